@@ -64,3 +64,63 @@ func describe(v Value) string {
 	}
 	return "?"
 }
+
+// sameValue: structural identity of two values made of hash-consed terms (no solver).
+func sameValue(a, b Value) bool {
+	switch x := a.(type) {
+	case *Term:
+		y, ok := b.(*Term)
+		return ok && x == y
+	case StructV:
+		y, ok := b.(StructV)
+		if !ok || len(x.F) != len(y.F) {
+			return false
+		}
+		for i := range x.F {
+			if !sameValue(x.F[i], y.F[i]) {
+				return false
+			}
+		}
+		return true
+	case ArrayV:
+		y, ok := b.(ArrayV)
+		if !ok || len(x.E) != len(y.E) {
+			return false
+		}
+		for i := range x.E {
+			if !sameValue(x.E[i], y.E[i]) {
+				return false
+			}
+		}
+		return true
+	case StrV:
+		y, ok := b.(StrV)
+		return ok && x.IsConc() && y.IsConc() && x.S == y.S
+	}
+	return false
+}
+
+// iteRuns selects el[idx] for a symbolic idx known to be in range, merging runs of identical
+// elements into one range test (tables such as msgp's size table have long constant runs).
+func iteRuns(idx *Term, el []Value) Value {
+	n := len(el)
+	// runs as (hi index, value), last first
+	res := el[n-1]
+	i := n - 1
+	for i > 0 && sameValue(el[i-1], res) {
+		i--
+	}
+	// now el[i..n-1] == res; walk down
+	for i > 0 {
+		hi := i - 1
+		v := el[hi]
+		j := hi
+		for j > 0 && sameValue(el[j-1], v) {
+			j--
+		}
+		// elements j..hi are v
+		res = iteValue(BvCmp("bvsle", idx, ConstI(int64(hi), idx.S.W)), v, res)
+		i = j
+	}
+	return res
+}
